@@ -42,6 +42,30 @@ class Run:
         self.findings = [f for f in load_findings() if f["property"] == pid]
         self.known_lines = []
         self.cfiles = {}
+        self._fuzz_cache = {}
+        self.lock = self._load_lock()
+
+    # ------------------------------------------------------------------ lock
+    def _lock_path(self):
+        return os.path.join(VERIF, "contracts", "obligations.lock.json")
+
+    def _load_lock(self):
+        try:
+            with open(self._lock_path()) as f:
+                return json.load(f).get(self.pid, {})
+        except Exception:
+            return {}
+
+    def write_lock(self):
+        p = self._lock_path()
+        try:
+            with open(p) as f:
+                allp = json.load(f)
+        except Exception:
+            allp = {}
+        allp[self.pid] = {o.name: {"kind": o.kind, "label": o.meta.get("label")} for o in self.sink.obls if o.status == "discharged"}
+        with open(p, "w") as f:
+            json.dump(allp, f, indent=0, sort_keys=True)
 
     # ------------------------------------------------------------------ C
     def cfile(self, rel):
@@ -60,11 +84,22 @@ class Run:
                 raise CheckerError("function %s not found in %s" % (c.func, c.file))
             n0 = len(self.sink.obls)
             ex.verify(c)
+            if c.gen is not None:
+                for ob in self.sink.obls[n0:]:
+                    if ob.replay is None and ob.kind in ("post", "preserve", "establish", "frame", "bounds", "call-pre"):
+                        ob.replay = (lambda c=c, cfs=cfs: (lambda model: self._fuzz(cfs, c)))()
             self.functions.append({"file": c.file, "function": c.func + (c.tag or ""), "line": cf.fn_line(c.func),
                                    "sha1": cf.fn_sha(c.func), "obligations": len(self.sink.obls) - n0})
             if len(self.sink.obls) == n0:
                 raise CheckerError("zero obligations for %s" % c.func)
         return ex
+
+    def _fuzz(self, cfs, c):
+        from . import cfuzz
+        key = (c.func, c.tag)
+        if key not in self._fuzz_cache:
+            self._fuzz_cache[key] = cfuzz.fuzz(cfs, c, trials=300 if self.tier == "quick" else 3000, seed=self.seed, lib=c.lib)
+        return self._fuzz_cache[key]
 
     # ------------------------------------------------------------------ lemmas / custom
     def lemma(self, prefix, kind, label, hyps, goal, backend="smt", pairs=None, replay=None, tactic=None, expect="valid"):
@@ -138,8 +173,18 @@ class Run:
         for o in bad:
             if o.status == "refuted":
                 violations.append(o)
+            elif o.name in self.lock:
+                # proved on the unchanged tree (lock file), no longer provable now: reported as a violation of
+                # that obligation; a failing input is searched by running the real code (replay harness)
+                o.detail = "was discharged on the unchanged tree, now %s: %s" % (o.status, o.detail)
+                violations.append(o)
             else:
                 undecided.append(o)
+        # lock drift: every locked semantic obligation must still be generated
+        names = {o.name for o in obls}
+        missing = [n for n, m in self.lock.items() if n not in names and m.get("kind") in ("post", "preserve", "establish", "equiv", "lemma", "sum", "deriv", "cont", "thermo", "doc", "finite", "vertex", "race")]
+        if missing:
+            raise CheckerError("obligations in the lock file are no longer generated (renamed or deleted code?): %s" % missing[:5])
         rep_dir = os.path.join(VERIF, "replays", self.pid)
         if os.path.isdir(rep_dir):
             import shutil
